@@ -49,6 +49,21 @@ def r1_optional_fields(R) -> None:
     # convert_to_int_or_none really maps NaN to None
     conv = R.repo.functions.get(q + '.<locals>.convert_to_int_or_none')
     conv_ok = conv is not None and any(isinstance(x, ast.Return) and is_const(x.value, None) for x in ast.walk(conv.node)) and 'isnan' in text(conv.node)
+    # the NaN test must not be applied to None (an all-missing column holds None, and np.isnan(None) raises TypeError)
+    if conv is not None:
+        for x in ast.walk(conv.node):
+            if is_call(x, 'np.isnan', 'numpy.isnan', 'math.isnan') and x.args:
+                arg = text(x.args[0])
+                guarded = False
+                for t in ast.walk(conv.node):
+                    if isinstance(t, ast.BoolOp) and isinstance(t.op, ast.Or) and any(v is x for v in t.values):
+                        idx = [i for i, v in enumerate(t.values) if v is x][0]
+                        guarded = any(text(v) == f'{arg} is None' for v in t.values[:idx])
+                    if isinstance(t, ast.If) and text(t.test) in (f'{arg} is None',) and any(isinstance(y, ast.Return) for y in t.body):
+                        guarded = True
+                R.check(guarded, conv.qualname, 'isnan-none-guard', 'a missing value that arrives as None is handled before the NaN test',
+                        f'`{text(x)}` is applied without a preceding `{arg} is None` test: a table whose lags/leads are all missing (verbatim-only script) raises TypeError',
+                        where=conv.where)
     for fld in optional:
         ok = fld in restored and (conv_ok or fld not in ('lags', 'leads'))
         R.check(ok, q, f'optional-restored:{fld}', f'Symbol.{fld} (Optional): a missing value comes back as None',
